@@ -785,6 +785,23 @@ def sandwich(tier="quick", start_id=0):
         p = prog(warm + a, warm2 + st, strat, reuse="never", pd=True)
         for k1 in range(8, ka):
             jobs.append({"fam": "sandwich:pd:" + name, "prog": p, "sched": {"kind": "segs", "segs": [[1, k1], [2, 9999], [1, 9999]]}})
+    # a destructor panics inside a writer's walk over the debts (the history of finding F5) while a guard on the displaced
+    # value sits in a node the walk has not reached yet: whatever the unwinding does, that guard must stay valid.
+    # H takes a guard on A (oldest node, a real debt) and is parked; R (its slots filled by guards of the other container)
+    # is stopped mid-fallback; W1 stores B (panicking destructor), prepares the hand-over and is stopped before its exchange
+    # on R's control; R confirms on its own and finishes; W3 replaces B (W1's replacement is now B's last reference); W1
+    # resumes: its exchange fails, B is destroyed, the destructor panics, the walk is aborted before H's node.
+    pf = {"threads": [[{"op": "new", "c": 0, "v": new()}, {"op": "new", "c": 1, "v": new()}],
+                      [{"op": "wait", "t": 0}, {"op": "load", "c": 0, "g": 40}, {"op": "load", "c": 0, "g": 41}, {"op": "deref_g", "g": 40},
+                       {"op": "drop_g", "g": 40}, {"op": "deref_g", "g": 41}, {"op": "drop_g", "g": 41}],
+                      [{"op": "wait", "t": 0}, {"op": "pad", "c": 1, "free": 0, "base": 300}, {"op": "load", "c": 0, "g": 16},
+                       {"op": "deref_g", "g": 16}, {"op": "drop_g", "g": 16}],
+                      [{"op": "wait", "t": 0}, {"op": "store", "c": 0, "v": new(True)}],
+                      [{"op": "wait", "t": 0}, {"op": "store", "c": 0, "v": new()}]],
+          "strategy": "default", "reuse": "never"}
+    for k in (0, 1, 2):
+        jobs.append({"fam": "until:panic-in-walk", "prog": pf, "sched": {"kind": "until", "segs": [
+            [1, "inv", 2], [2, "st.0.*.load", 2], [3, "ctrl.1.*.cas", 1], [3, "#%d" % k, 1], [2, "inv", 10], [4, "", 1], [3, "", 1], [2, "", 1], [1, "", 1]]}})
     # generation wrap inside a writer's NESTED load (the writer helps a reader that is mid-fallback): W claims its node
     # first and presets its counter, R is stopped at every step of its load, W stores
     for back in (1, 2):
